@@ -54,7 +54,15 @@ def run(ctx):
             seen_sort.add((fq, node.lineno, node.col_offset))
             n_sort += 1
             has_key = isinstance(node, ast.Call) and any(k.arg == "key" for k in node.keywords)
-            typed = isinstance(node, ast.Call) and any(isinstance(x, ast.Call) and getattr(x.func, "id", None) == "isinstance" for a in node.args for x in ast.walk(a))
+            def _filtered(a, depth=0):
+                if any(isinstance(x, ast.Call) and getattr(x.func, "id", None) == "isinstance" for x in ast.walk(a)):
+                    return True
+                if isinstance(a, ast.Name) and depth < 3:
+                    ds = [st.value for st in ast.walk(in_scope[fq].node) if isinstance(st, ast.Assign) and len(st.targets) == 1 and isinstance(st.targets[0], ast.Name) and st.targets[0].id == a.id]
+                    return bool(ds) and all(_filtered(d, depth + 1) for d in ds)
+                return False
+
+            typed = isinstance(node, ast.Call) and any(_filtered(a) for a in node.args)
             ok = has_key or typed
             res.inst("L-SORT", f"{fq}:{node.lineno} {what} with a key or a type filter", ok)
             if not ok:
